@@ -128,7 +128,7 @@ if __name__ == "__main__":
 
 
 # ------------------------------------------------------------------ driver side (imported by the checks)
-def run_spec(spec, tag, build_dir, timeout=900):
+def run_spec(spec, tag, build_dir, timeout=2400):
     """run one spec in a fresh interpreter (same environment as the calling check); returns the decoded JSON line"""
     import os
     import subprocess
